@@ -8,7 +8,7 @@ break - the check then goes on to search for a failing schedule.
 Recognised (everything else is `.unknown`; `try` is only accepted without handlers and without `else`):
   docstrings, comments, `pass`;
   `<name> = self._now()`                     a pure binding: dropped, <name> then stands for "now" (any name);
-  `self.semaphore.acquire()` / `.release()`;
+  `self.semaphore.acquire()` / `.release()` (and the non-blocking `acquire(blocking=False)`, which no reference skeleton has);
   `self.result.time(self._test_start)`, `self.result.time(<now name> | self._now())`, `self.result.startTest(<test>)`,
   `self.result.stopTest(<test>)`, `self.result.tags(*self._global_tags)`, `self.result.tags(*self._test_tags)`,
   `<method>(<test>, *args, **kwargs)`        with <method>, <test> the first two parameters of the function (any names);
@@ -149,6 +149,8 @@ def action(s, cx):
     p = cx.params
     if u == 'self.semaphore.acquire()':
         return '.acquire'
+    if u in ('self.semaphore.acquire(blocking=False)', 'self.semaphore.acquire(False)', 'self.semaphore.acquire(blocking=False, timeout=None)'):
+        return '.tryAcquire'     # never waits: no reference skeleton contains it, but the model can say what it does (Conc.Step.tryAcq)
     if u == 'self.semaphore.release()':
         return '.release'
     if u == 'self.result.time(self._test_start)':
